@@ -67,7 +67,7 @@ def main():
             "level_claimed": {"category": "proof", "text": c["text"] + ((" SOURCE TIE: " + c["tie"]) if c.get("tie") else ""),
                               "design_ref": "DESIGN.md section " + c["ref"] + (" and section 8.7 (source tie)" if c.get("tie") else "")},
             "level_note": c.get("note", NOTE),
-            "technique": c["technique"] + (" + Lean definitions regenerated from the Python source on every run by a translator (harness/pytrans.py) "
+            "technique": c["technique"] + (" + Lean definitions regenerated from the Python source on every run by a translator (" + c.get("tie_tool", "harness/pytrans.py") + ") "
                                            "and proved equal to the model (bridging theorems src_*), run at Float next to the real functions" if c.get("tie") else ""),
         })
     na = [{"property_id": p, "reason": NOT_APPLICABLE.get(p, "check not built yet in this session (work in progress; see DESIGN.md section 7 for the build order)")}
